@@ -2,6 +2,7 @@ import OpusModel.SilkParams
 import OpusModel.SilkSynthIdx
 import OpusModel.SilkSynthIdxFrame
 import OpusModel.SilkSynthIdxParams
+import OpusModel.SilkSynthIdxOut
 import Driver.Util
 /- Suite `silkparams` (property C18): SILK side-information dequantisers.
    Lists are `a,b,c`; codebooks are `nbmb` / `wb`. -/
@@ -169,6 +170,17 @@ def handle : List String → String
             interpCoefQ2 := interp, firstFrameAfterReset := ffar ≠ 0, lossCnt := loss }
         s!"OK {Opus.SilkSynthIdx.extentsStr a [.gainsIdx, .gains, .nlsfIdx, .predCoef, .prevNlsf, .pitchL, .ltpIdx, .ltpVq0, .ltpVq1, .ltpVq2, .ltpCoef]}"
     | _, _, _ => "bad-op"
+  | ["synthout", fs, nb, nci, nca, api, hs, stm, lost] =>
+    match [fs, nci, nca, api, hs, stm, lost].mapM parseInt, parseNat nb with
+    | some [fs, nci, nca, api, hs, stm, lost], some nb =>
+      if (nb ≠ 2 ∧ nb ≠ 4) ∨ (fs ≠ 8 ∧ fs ≠ 12 ∧ fs ≠ 16) then "bad-op"
+      else
+        let x : Opus.SilkSynthIdx.OutIn :=
+          { fsKHz := fs, nbSubfr := nb, nChInt := nci, nChAPI := nca, apiHz := api, hasSide := hs ≠ 0, stereoToMono := stm ≠ 0, lost := lost ≠ 0 }
+        let r := Opus.SilkSynthIdx.outAccesses x
+        if r.2 then "ABORT"
+        else s!"OK n={x.cfg.frameLen * api / (fs * 1000)} {Opus.SilkSynthIdx.extentsStr r.1 [.tmpStore, .out2, .samplesOut, .sMid, .sSide, .predPrev, .delayBuf0, .delayBuf1]}"
+    | _, _ => "bad-op"
   | ["synthframe", fs, nb, loss, prev, lagPrev, ffar, plcFs, pq8, plcNb, plcS, lastLost, plcSeed, cngFs, cngSeed,
      lost, sig, qoff, interp, pl, ltp, gains, gd, ad, lowFirst] =>
     match [fs, loss, prev, lagPrev, ffar, plcFs, pq8, plcNb, plcS, lastLost, plcSeed, cngFs, cngSeed, lost, sig, qoff,
